@@ -60,9 +60,53 @@ def run(ctx, R, tier):
     inflight(F, R)
     dt_rule(F, R)
     shared_rate_single(F, R)
+    rate_bounds(F, R)
     # 'tweens keep their real-time speed' at every rate: each parameter is updated exactly once per pass, by that pass's duration
     from .c06 import cover as parameter_cover
     parameter_cover(F, R)
+
+
+RATE_BOUNDS = {
+    # (owner type, operation): why a bound that moves with the device rate is what the documentation says
+    ('effect::filter::Filter', 'clamp'): 'the cutoff relative to the sample rate is kept inside (0, 0.5): no filter can be tuned above Nyquist',
+    ('effect::eq_filter::Coefficients', 'clamp'): 'the band frequency relative to the sample rate is kept inside (0, 0.5): no filter can be tuned above Nyquist',
+}
+
+
+def rate_bounds(F, R, rule='B.C16.rate-bound'):
+    """'Behaviour specified in hertz / seconds is independent of the device sample rate': the time step `dt` scales a rate
+    into a per-step amount (a product); a comparison, `min`, `max` or `clamp` in which `dt` takes part is a bound that moves
+    with the device rate.  The two that exist are the Nyquist limits of the two filters (listed with their reason); any
+    other - e.g. an LFO frequency capped at 0.5 / dt, i.e. at a fraction of sample rate / internal buffer size - is reported."""
+    import re
+    n = 0
+    has_dt = lambda d: re.search(r'(?<![A-Za-z_.])dt(?![A-Za-z_])', d) is not None
+    def owner_ty(b):
+        q = b.path.split('::{closure')[0]
+        return q[1:].split(' as ')[0] if q.startswith('<') else q.rsplit('::', 1)[0]
+    seen = {}
+    for b in F.bodies:
+        if b.krate != 'kira' or 'dt' not in b.names.values():
+            continue
+        n += 1
+        for bb, t in b.calls():
+            nm = (callee_path(t) or '').split('::')[-1]
+            if nm in ('min', 'max', 'clamp') and ('<impl f32>' in (callee_path(t) or '') or '<impl f64>' in (callee_path(t) or '')):
+                ds = [describe(b, a, depth=8, at=bb) for a in t['args']]
+                if any(has_dt(d) for d in ds):
+                    seen.setdefault((owner_ty(b), nm), []).append((b, bb, ds))
+        for bb, si, s in b.stmts():
+            if s['k'] == 'assign' and s['rv']['k'] == 'bin' and s['rv']['op'] in ('Lt', 'Le', 'Gt', 'Ge') and s['lhs'].get('ty') == 'bool':
+                ds = [describe(b, s['rv']['a'], depth=8, at=bb), describe(b, s['rv']['b'], depth=8, at=bb)]
+                if any(has_dt(d) for d in ds) and not any('len(' in d for d in ds):
+                    seen.setdefault((owner_ty(b), 'compare'), []).append((b, bb, ds))
+    for key, sites in sorted(seen.items(), key=lambda kv: kv[0]):
+        b, bb, ds = sites[0]
+        R.check(key in RATE_BOUNDS, rule, '%s|%s' % key, '%s applies %s to a value computed from the time step (%s): a limit that depends on the '
+                'device sample rate (and on the internal buffer size where dt spans a buffer)' % (b.path, key[1], ' , '.join(d[:60] for d in ds)),
+                detail={'reason': RATE_BOUNDS.get(key), 'sites': len(sites)}, where=b.where(bb))
+    R.floor(rule + '.bodies', n, 20)
+    R.floor(rule, len([k for k in seen if k in RATE_BOUNDS]), 2)
 
 
 def renderer(F, R):
